@@ -243,7 +243,7 @@ func otherUnits(thorough bool) []*unit {
 						}
 						for _, m := range mutationsFor(site, s.Root, false) {
 							raw0, mf, mc := mutate(s.Root, site, m)
-						raw := resignEvidence(raw0, key)
+							raw := resignEvidence(raw0, key)
 							if raw == nil {
 								continue
 							}
